@@ -20,10 +20,11 @@ suite=$(cd $tmp/with && go test -vet=off -count=1 ./fix/... ./session/... ./util
 suite_ok=$(echo "$suite" | grep -c "^FAIL\|^--- FAIL\|panic:")
 cp $tmp/demo.go $tmp/with/$dir/zz_seed_demo_test.go
 # only the demonstration's own tests: the tests package has a helper that panics when the binary runs longer than 10 s
+race=""; grep -q -- "-race" $sd/demo_test.go && race="-race"
 names=$(grep -o '^func Test[A-Za-z0-9_]*' $sd/demo_test.go | sed 's/^func //' | paste -sd'|')
-dw=$(cd $tmp/with && go test -vet=off -count=1 -timeout 300s -run "^($names)\$" ./$dir 2>&1 | tail -5)
-dwo=$(cd $tmp/without && go test -vet=off -count=1 -timeout 300s -run "^($names)\$" ./$dir 2>&1 | tail -3)
-with_fail=$(echo "$dw" | grep -c "^FAIL\|^--- FAIL\|panic:")
+dw=$(cd $tmp/with && go test $race -vet=off -count=1 -timeout 300s -run "^($names)\$" ./$dir 2>&1 | tail -5)
+dwo=$(cd $tmp/without && go test $race -vet=off -count=1 -timeout 300s -run "^($names)\$" ./$dir 2>&1 | tail -3)
+with_fail=$(echo "$dw" | grep -c "^FAIL\|^--- FAIL\|panic:\|DATA RACE")
 without_ok=$(echo "$dwo" | grep -c "^ok")
 cd /verif
 chk=$(tools/tryseed.sh $sd/patch.diff $prop 2>&1)
